@@ -166,15 +166,18 @@ pub const FLAG_NAMES: [&str; 15] = [
 ];
 
 /// the property's non-trivial rule, per kind of conversion
-pub fn nontrivial(kind: &str, fl: u32) -> bool {
+pub fn nontrivial_mask(kind: &str) -> u32 {
     match kind {
-        "cast" => fl & (F_NAN | F_INF | F_SAT | F_TRUNC | F_WRAP | F_ROUND | F_BOUND) != 0,
-        "from" => fl & (F_NAN | F_INF | F_BOUND | F_NEG | F_SUBNORMAL | F_NEGZERO) != 0,
-        "tryfrom" => fl & (F_TRY_ONE | F_BOUND) != 0,
-        "repack" => fl & F_DISTINCT != 0,
-        "mask" => fl & F_MIXED != 0,
-        _ => false,
+        "cast" => F_NAN | F_INF | F_SAT | F_TRUNC | F_WRAP | F_ROUND | F_BOUND,
+        "from" => F_NAN | F_INF | F_BOUND | F_NEG | F_SUBNORMAL | F_NEGZERO,
+        "tryfrom" => F_TRY_ONE | F_BOUND,
+        "repack" => F_DISTINCT,
+        "mask" => F_MIXED,
+        _ => 0,
     }
+}
+pub fn nontrivial(kind: &str, fl: u32) -> bool {
+    fl & nontrivial_mask(kind) != 0
 }
 
 #[inline(always)]
@@ -212,7 +215,8 @@ fn cast_flags<S: Lane, D: Lane>(s: S, e: D) -> u32 {
             fl |= F_NEG;
         }
         if !D::FLOAT {
-            let t = x.trunc();
+            // trunc without the libm call of the baseline target: |x| >= 2^52 has no fraction
+            let t = if x.abs() < 4503599627370496.0 { (x as i64) as f64 } else { x };
             let lo = D::MIN_I as f64; // 0 or -2^k: exact
             let hi1 = (D::MAX_I + 1) as f64; // 2^k: exact
             if t < lo || t >= hi1 {
